@@ -219,8 +219,74 @@ pub enum CmpOp {
     Ge,
 }
 
+/// Arithmetic and bitwise operators of the query language (one column operand, one literal).
+#[derive(Clone, Copy, Debug, PartialEq, Eq, Hash, Serialize, Deserialize)]
+pub enum AOp {
+    Add,
+    Sub,
+    Mul,
+    Div,
+    And,
+    Or,
+    Xor,
+    Shl,
+    Shr,
+    Neg,
+    Inv,
+}
+
+/// The documented result: two's-complement arithmetic on two integers,
+/// concatenation for string + string, null for operands of the wrong type,
+/// for a null operand and for division by zero.  (The generator keeps integer
+/// operands where nothing overflows and shift counts inside 0..31.)
+pub fn arith(cell: &Val, op: AOp, lit: &Val) -> Val {
+    match op {
+        AOp::Neg => match cell {
+            Val::Int(a) => Val::Int(a.wrapping_neg()),
+            _ => Val::Null,
+        },
+        AOp::Inv => match cell {
+            Val::Int(a) => Val::Int(!*a),
+            _ => Val::Null,
+        },
+        AOp::Add => match (cell, lit) {
+            (Val::Int(a), Val::Int(b)) => Val::Int(a.wrapping_add(*b)),
+            (Val::Str(a), Val::Str(b)) => Val::Str(format!("{}{}", a, b)),
+            _ => Val::Null,
+        },
+        AOp::Div => match (cell, lit) {
+            (_, Val::Int(0)) => Val::Null,
+            (Val::Int(a), Val::Int(b)) => {
+                // truncating division, written out
+                let q = (*a as i64).abs() / (*b as i64).abs();
+                Val::Int(if (*a < 0) != (*b < 0) { -q } else { q } as i32)
+            }
+            _ => Val::Null,
+        },
+        _ => match (cell, lit) {
+            (Val::Int(a), Val::Int(b)) => Val::Int(match op {
+                AOp::Sub => a.wrapping_sub(*b),
+                AOp::Mul => a.wrapping_mul(*b),
+                AOp::And => a & b,
+                AOp::Or => a | b,
+                AOp::Xor => a ^ b,
+                AOp::Shl => ((*a as u32) << (*b as u32 & 31)) as i32,
+                AOp::Shr => {
+                    // arithmetic shift: sign-filling
+                    let sh = *b as u32 & 31;
+                    ((*a as i64) >> sh) as i32
+                }
+                _ => unreachable!(),
+            }),
+            _ => Val::Null,
+        },
+    }
+}
+
 #[derive(Clone, Debug, PartialEq, Eq, Hash, Serialize, Deserialize)]
 pub enum Cond {
+    /// (column <aop> literal) <cmp> literal; for Neg and Inv the first literal is unused
+    Arith(String, AOp, Val, CmpOp, Val),
     Cmp(String, CmpOp, Val),
     Truthy(String),
     Const(bool),
@@ -234,7 +300,7 @@ pub enum Cond {
 impl Cond {
     pub fn columns<'a>(&'a self, out: &mut Vec<&'a str>) {
         match self {
-            Cond::Cmp(c, _, _) | Cond::Truthy(c) => out.push(c.as_str()),
+            Cond::Cmp(c, _, _) | Cond::Truthy(c) | Cond::Arith(c, _, _, _, _) => out.push(c.as_str()),
             Cond::Const(_) => {}
             Cond::And(a, b) | Cond::Or(a, b) => {
                 a.columns(out);
